@@ -12,6 +12,9 @@ oracle:  Python's own string semantics (str.count / rfind / split / encode) judg
          implementation answer: round trip, strict monotonicity, newline/character counting,
          p2o soundness, range well-formedness, terminal line/column, caret shape, and the LSP
          (UTF-16) meaning of `character`."""
+import bisect
+import collections
+import glob
 import itertools
 import json
 import os
@@ -28,12 +31,37 @@ TRAP = -9
 
 # ----------------------------------------------------------------------------- documents
 
+def runs(doc):
+    out = []
+    for c in doc:
+        if out and out[-1][0] == c:
+            out[-1][1] += 1
+        else:
+            out.append([c, 1])
+    return out
+
+
 def doc_str(doc):
-    return ",".join(str(c) for c in doc) if doc else "-"
+    """harness spelling: scalars separated by commas, `c*n` for a run of n copies"""
+    if not doc:
+        return "-"
+    return ",".join(str(c) if n == 1 else "%d*%d" % (c, n) for c, n in runs(doc))
 
 
 def doc_coq(doc):
-    return "[" + "; ".join(str(c) for c in doc) + "]"
+    """Gallina spelling: list literal, long runs as [repeat c (Z.to_nat n)]"""
+    parts, lit = [], []
+    for c, n in runs(doc):
+        if n >= 8:
+            if lit:
+                parts.append("[" + "; ".join(lit) + "]")
+                lit = []
+            parts.append("repeat %d (Z.to_nat %d)" % (c, n))
+        else:
+            lit += [str(c)] * n
+    if lit or not parts:
+        parts.append("[" + "; ".join(lit) + "]")
+    return "(" + " ++ ".join(parts) + ")"
 
 
 def blen(c):
@@ -60,8 +88,7 @@ class Doc:
     def prefix(self, o):
         """the scalars that start before byte o (o clamped to the length)"""
         o = min(o, self.len)
-        n = sum(1 for st in self.starts if st < o)
-        return self.s[:n]
+        return self.s[:bisect.bisect_left(self.starts, o)]
 
     def pos(self, o):
         p = self.prefix(o)
@@ -76,6 +103,11 @@ class Doc:
         p = self.prefix(o)
         tail = p[p.rfind("\n") + 1:]
         return any(ord(ch) >= 0x10000 for ch in tail)
+
+    def multibyte_before(self, o):
+        p = self.prefix(o)
+        tail = p[p.rfind("\n") + 1:]
+        return any(ord(ch) >= 0x80 for ch in tail)
 
     def valid(self, pos):
         l, c = pos
@@ -100,7 +132,7 @@ class Oracle:
 
     def fail(self, D, query, why, expected=None, actual=None, then=None):
         """query (and the optional follow-up `then`) are harness input lines: the replay re-runs them"""
-        f = {"doc": doc_str(D.doc), "text": D.s, "query": query, "build": self.build, "why": why,
+        f = {"doc": doc_str(D.doc), "text": D.s[:200], "query": query, "build": self.build, "why": why,
              "expected": expected, "actual": actual}
         if then:
             f["then"] = then
@@ -140,7 +172,7 @@ class Oracle:
     def roundtrip_monotone(self, D, o2p_at, p2o_at):
         """o2p_at: dict boundary offset -> pos ; p2o_at: callable pos -> offset or -1"""
         prev = None
-        for o in D.bounds:
+        for o in sorted(o2p_at):
             p = tuple(o2p_at[o])
             if p[0] == TRAP:
                 continue
@@ -177,10 +209,13 @@ class Oracle:
         if text != [ord(ch) for ch in D.lines[l]]:
             return self.fail(D, q, "line text is not the line of the offset", D.lines[l], text)
         o = min(a, D.len)
-        if o in D.boundset:
+        if o in D.boundset and col != c + 1:
+            # the property reads "column agrees with counting characters"; the code counts bytes: the class
+            # is decided by the precise predicate (a multi-byte scalar in the line prefix) and the byte count
             want = len(D.lines[l][:c].encode("utf-8")) + 1
-            if col != want:
-                return self.fail(D, q, "terminal column is not (UTF-8 length of the first `character` scalars of the line) + 1", want, col)
+            if not (D.multibyte_before(a) and col == want and self.known("terminal-column-bytes")):
+                return self.fail(D, q, "terminal column is not the 1-based character column (nor, in the known class, "
+                                 "the 1-based byte column %d)" % want, c + 1, col)
         tl = len(D.lines[l].encode("utf-8"))
         if not (col >= 1 and spaces == col - 1 and carets >= 1 and spaces + carets <= tl + 1):
             return self.fail(D, q, "caret line ill-formed (col>=1, spaces=col-1, carets>=1, caret stays within line+1)", None, got)
@@ -224,13 +259,15 @@ def hash_list(xs):
     return h
 
 
-def judge_table(orc, D, K, t):
+def judge_table(orc, D, K, t, arms):
     n, g = table_shape(D, K)
     for o in range(n):
         orc.o2p(D, o, t["o2p"][o])
+        arms.o2p(D, o)
     for l in range(g):
         for c in range(g):
             orc.p2o(D, l, c, t["p2o"][l][c])
+            arms.p2o(D, l, c)
 
     def p2o_at(p):
         return t["p2o"][p[0]][p[1]] if p[0] < g and p[1] < g else None
@@ -241,6 +278,9 @@ def judge_table(orc, D, K, t):
             sp, ul, r = t["spans"][(a, b)]
             orc.rng(D, a, b, r)
             orc.car(D, a, b, None if sp == TRAP or ln == TRAP else (ln, cn, sp, ul, text))
+            arms.rng(D, a, b)
+            if ln != TRAP:
+                arms.car(D, a, b, cn, sum(blen(c) for c in text))
 
 
 # ----------------------------------------------------------------------------- generators
@@ -325,13 +365,259 @@ def parse_ints(line):
     return [int(x) for x in body.split()], note
 
 
+
+def parse_doc_str(t):
+    if t == "-":
+        return []
+    out = []
+    for item in t.split(","):
+        c, _, n = item.partition("*")
+        out += [int(c)] * (int(n) if n else 1)
+    return out
+
+
+# ----------------------------------------------------------------------------- scale documents
+
+MODEL_MAX = 12000
+SCALES = [0, 1, 2, 16, 17, 63, 64, 65, 255, 256, 257, 1000, 65535, 65536, 65537]
+
+
+def scale_docs(thorough):
+    """documents whose line length / line count / scalar count sit on and around powers of two
+    (u8/u16 truncation of a counter, buffer sizes, gutter widths 9->10->100->1000->10000->100000)"""
+    out = []
+    for n in SCALES if thorough else [n for n in SCALES if n not in (63, 65, 65535)]:
+        out.append([0x61] * n + [0xE9, 0x62])            # one long line, then a 2-byte scalar
+        out.append([0x0A] * n + [0x61, 0x1F600])           # n empty lines
+        if n <= 1000 or thorough:
+            out.append([0xE9, 0x0D, 0x0A] * n + [0x7A])   # n CRLF lines with a multi-byte scalar
+    for n in (9, 10, 99, 100, 999, 1000, 9999, 10000):     # line-number width of the terminal gutter
+        out.append([0x78, 0x0A] * (n - 1) + [0x79, 0x79])
+    # tabs, zero-width, combining and wide characters on one line before an ASCII target
+    out.append([0x09, 0x61, 0x200B, 0x62, 0x0301, 0x4E2D, 0xFF21, 0x1F1E9, 0x1F1EA, 0x63, 0x0A, 0x64])
+    return out
+
+
+def scale_queries(doc):
+    D = Doc(doc)
+    n = len(doc)
+    offs = sorted({o for o in (0, 1, 2, D.len - 3, D.len - 2, D.len - 1, D.len, D.len + 1, 254, 255, 256, 257, 65535, 65536, 65537,
+                               D.len // 2, 2**32, USIZE_MAX) if o >= 0})
+    qs = [("o2p", (o,)) for o in offs]
+    nl = len(D.lines)
+    last = len(D.lines[-1])
+    for l, c in ((0, 0), (0, n), (0, 255), (0, 256), (0, 65535), (0, 65536), (nl - 1, last), (nl - 1, last + 1), (nl - 1, 0),
+                 (nl, 0), (255, 0), (256, 0), (256, 1), (65535, 0), (65536, 0), (65536, 1), (nl // 2, 1), (U32_MAX, 0), (0, U32_MAX)):
+        qs.append(("p2o", (l, c)))
+    for a, b in ((0, D.len), (D.len - 1, D.len), (D.len, D.len + 5), (D.len - 2, 0), (D.len // 2, D.len // 2 + 300), (255, 257),
+                 (65535, 65537), (D.len + 1, D.len + 2)):
+        if a >= 0:
+            qs.append(("rng", (a, b)))
+            qs.append(("car", (a, b)))
+    return D, qs
+
+
+# ----------------------------------------------------------------------------- which arms of the model a case reaches
+
+class Arms:
+    """A Python mirror of the CONTROL FLOW of coq/C19/Model.v, used only to count which arm of each
+    modelled function the correspondence stream reaches (coverage["model_arm_hits"])."""
+    NAMES = ["o2p.clamp", "o2p.noclamp", "o2p.break", "o2p.nl", "o2p.other", "o2p.end_of_text",
+             "p2o.nil_match", "p2o.nil_nomatch", "p2o.cons_match", "p2o.nl_clamp", "p2o.nl_next", "p2o.other",
+             "span.end_wins", "span.forced_start_plus_1", "span.saturated",
+             "gli.clamp", "gli.noclamp", "gli.break", "gli.nl", "gli.other", "gli.end_of_text",
+             "line_info.find_nl_some", "line_info.find_nl_none",
+             "underline.empty_or_reversed", "underline.min_end_in_line", "underline.min_line_len",
+             "underline.max_one", "underline.max_value"]
+    UNREACHABLE = {"u32add.overflow": "proved unreachable below 2^32 scalars (C19_counters_fit)",
+                   "uadd/usub.overflow": "proved unreachable below 2^64-1 bytes (C19_line_info_consistent, C19_render_total)",
+                   "line_info.slice_off_boundary": "proved unreachable (C19_line_info_consistent)"}
+
+    def __init__(self):
+        self.h = collections.Counter({n: 0 for n in self.NAMES})
+
+    def scan(self, pre, D, o):
+        self.h[pre + (".clamp" if o > D.len else ".noclamp")] += 1
+        off = min(o, D.len)
+        k = bisect.bisect_left(D.starts, off)
+        nls = D.s.count("\n", 0, k)
+        self.h[pre + ".nl"] += nls
+        self.h[pre + ".other"] += k - nls
+        self.h[pre + (".break" if k < len(D.starts) else ".end_of_text")] += 1
+
+    def o2p(self, D, o):
+        self.scan("o2p", D, o)
+
+    def p2o(self, D, pl, pc):
+        line = col = 0
+        for ch in D.s:
+            if line == pl and col == pc:
+                self.h["p2o.cons_match"] += 1
+                return
+            if ch == "\n":
+                if line == pl:
+                    self.h["p2o.nl_clamp"] += 1
+                    return
+                self.h["p2o.nl_next"] += 1
+                line, col = line + 1, 0
+            else:
+                self.h["p2o.other"] += 1
+                col += 1
+        self.h["p2o.nil_match" if (line == pl and col == pc) else "p2o.nil_nomatch"] += 1
+
+    def rng(self, D, a, b):
+        if a == USIZE_MAX:
+            self.h["span.saturated"] += 1
+        self.h["span.end_wins" if b > min(a + 1, USIZE_MAX) else "span.forced_start_plus_1"] += 1
+        self.o2p(D, a)
+        self.o2p(D, max(b, min(a + 1, USIZE_MAX)))
+
+    def car(self, D, a, b, cn, tl):
+        self.scan("gli", D, a)
+        l = D.pos(a)[0]
+        self.h["line_info.find_nl_some" if l < len(D.lines) - 1 else "line_info.find_nl_none"] += 1
+        if not (a < b and cn > 0):
+            self.h["underline.empty_or_reversed"] += 1
+            return
+        so = max(0, a - max(0, cn - 1))
+        eil = max(0, b - so)
+        self.h["underline.min_end_in_line" if eil <= tl else "underline.min_line_len"] += 1
+        self.h["underline.max_value" if max(0, min(eil, tl) - max(0, cn - 1)) >= 1 else "underline.max_one"] += 1
+
+
+# ----------------------------------------------------------------------------- through the language server
+
+def lsp_sources(rng, thorough):
+    """Incan programs from the repository's examples and test fixtures, each in several layouts."""
+    files = sorted(glob.glob(os.path.join(vlib.REPO, "examples", "**", "*.incn"), recursive=True)
+                   + glob.glob(os.path.join(vlib.REPO, "tests", "**", "*.incn"), recursive=True))
+    texts = []
+    for f in files:
+        try:
+            t = open(f, encoding="utf-8").read()
+        except (OSError, UnicodeDecodeError):
+            continue
+        if 0 < len(t) <= 6000:
+            texts.append((os.path.relpath(f, vlib.REPO), t))
+    rng.shuffle(texts)
+    texts = texts[:60 if thorough else 14]
+    bad = 'def c19_bad() -> int:\n    return "é\U0001F600€" + c19_unknown_name\n'
+    out = []
+    for name, t in texts:
+        out.append((name, t))
+        out.append((name + " [CRLF, error at the end]",
+                    (t + ("" if t.endswith("\n") else "\n") + "\n" + bad).replace("\r\n", "\n").replace("\n", "\r\n")))
+        out.append((name + " [non-ASCII header, error after astral text]",
+                    "# é\U0001F600 中文 header\n" + t + ("" if t.endswith("\n") else "\n") + "\n" + bad))
+        out.append((name + " [consts with non-ASCII strings]",
+                    'const C19_A: str = "\U0001F600é"\nconst C19_B: int = 7\n' + t))
+    out.append(("<lex error after non-ASCII>", 'const S: str = "é\U0001F600"\nx = "unterminated €\n'))
+    out.append(("<parse error>", "# \U0001F600\ndef f( -> int:\n    return 1\n"))
+    out.append(("<empty>", ""))
+    return out
+
+
+def lsp_positions(D, rng):
+    ps = []
+    nl = len(D.lines)
+    for l in sorted(set([0, 1, 2, nl - 1, nl, nl + 1] + [rng.randrange(0, nl) for _ in range(14)])):
+        if l < 0:
+            continue
+        ll = len(D.lines[l]) if l < nl else 0
+        for c in sorted({0, 1, 4, ll // 2, max(ll - 1, 0), ll, ll + 3}):
+            ps.append((l, c))
+    return ps
+
+
+def lsp_stream(chk, binary, orc, rng, thorough, dist):
+    srcs = lsp_sources(rng, thorough)
+    cases = []
+    for name, t in srcs:
+        D = Doc([ord(ch) for ch in t])
+        cases.append((name, D, lsp_positions(D, rng)))
+    text = "".join("lsp " + json.dumps({"text": D.s, "positions": ps}) + "\n" for _, D, ps in cases)
+    out = vlib.run_harness(binary, ["run", "c19"], text, timeout=1200).split("\n")[:len(cases)]
+    if len(out) != len(cases):
+        raise vlib.Infra("harness returned a wrong number of lsp lines")
+    st = {"documents": len(cases), "diagnostics": 0, "hover_ranges": 0, "definition_ranges": 0, "stages": {}, "position_encoding": None}
+
+    def wf(r):
+        return (r[0], r[1]) <= (r[2], r[3]) and D.valid((r[0], r[1])) and D.valid((r[2], r[3]))
+    for (name, D, ps), line in zip(cases, out):
+        r = json.loads(line)
+        q = "lsp " + json.dumps({"text": D.s, "positions": ps})
+
+        def fail(why, expected=None, actual=None):
+            orc.fails.append({"doc": name, "query": q if len(q) < 20000 else None, "build": orc.build, "why": why,
+                              "expected": expected, "actual": actual})
+        if r.get("error"):
+            fail("language server case failed: %s" % r["error"])
+            continue
+        st["position_encoding"] = r.get("position_encoding")
+        stage, errs = r["direct"]
+        st["stages"][stage] = st["stages"].get(stage, 0) + 1
+        diags = r["diags"]
+        chk.count_case(("lsp", name), nontrivial=True)
+        if any("foreign_uri" in d for d in diags):
+            fail("diagnostics published for another document", None, diags)
+            continue
+        if len(diags) != len(errs):
+            fail("number of published diagnostics differs from the front end's errors", len(errs), len(diags))
+            continue
+        for d, (a, b, kind, msg) in zip(diags, errs):
+            st["diagnostics"] += 1
+            chk.evaluations += 1
+            want = D.pos(a) + D.pos(max(b, a + 1))
+            got = tuple(d["range"])
+            if not d["message"].startswith(msg):
+                fail("diagnostic message is not the error's message", msg, d["message"])
+            elif got != want:
+                fail("diagnostic range is not the position of the error span %d..%d (%s)" % (a, b, msg), want, got)
+            elif not wf(got):
+                fail("diagnostic range not well-formed / outside the document", None, got)
+            elif any(tuple(x) != got for x in d["related"]):
+                fail("related-information range differs from the diagnostic's range", got, d["related"])
+            elif d["severity"] != {"warning": 2, "lint": 4}.get(kind, 1):
+                fail("severity does not match the error kind %s" % kind, None, d["severity"])
+        for (l, c), (hr, dr, herr, derr) in zip(ps, r["answers"]):
+            chk.evaluations += 2
+            if herr or derr:
+                fail("hover/definition request failed at %d:%d" % (l, c), None, herr or derr)
+                continue
+            for what, rr in (("hover", hr), ("definition", dr)):
+                if rr is None:
+                    continue
+                st[what + "_ranges"] += 1
+                if not wf(rr):
+                    fail("%s range at %d:%d not well-formed / outside the document" % (what, l, c), None, rr)
+            if hr is not None:
+                # the hovered declaration contains the cursor: compare in byte offsets computed by Python
+                if not D.valid((l, c)):
+                    ll = len(D.lines[l]) if l < len(D.lines) else None
+                    cur = D.offset_of((l, ll)) if ll is not None and l < len(D.lines) - 1 else None
+                else:
+                    cur = D.offset_of((l, c))
+                if cur is None:
+                    fail("hover answered for a position outside the document (%d:%d)" % (l, c), None, hr)
+                else:
+                    lo, hi = D.offset_of((hr[0], hr[1])), D.offset_of((hr[2], hr[3]))
+                    if not (lo <= cur < hi):
+                        fail("hover range at %d:%d (offset %d) does not contain the cursor" % (l, c, cur), "lo <= %d < hi" % cur, [lo, hi])
+    dist["lsp"] = st
+
+
 # ----------------------------------------------------------------------------- run
 
 REQ = "From Verif Require Import Base.I64 Base.Text C19.Model.\nOpen Scope Z_scope."
 
 
 def load_findings(chk):
-    return None
+    # TEMPORARY: entries of build/kf-C19.json that known_findings.json does not list yet (new in the audit round);
+    # the lead drops this after merging
+    p = os.path.join(vlib.VERIF, "build", "kf-C19.json")
+    if os.path.exists(p):
+        have = {f.get("id") for f in chk.findings}
+        chk.findings = chk.findings + [f for f in json.load(open(p)) if f.get("id") not in have]
 
 
 def run(chk):
@@ -376,7 +662,8 @@ def run(chk):
     # fixed corner documents
     for doc in ([], [0x0A], [0x0D, 0x0A], [0x1F600], [0x61, 0x0A, 0x0A], [0x0A, 0x1F600, 0xE9, 0x0D, 0x0A, 0x61]):
         longs.append(single_queries(rng, doc, 10))
-    singles = [(D, op, args) for (D, qs) in longs for (op, args) in qs]
+    scales = [scale_queries(doc) for doc in scale_docs(thorough)]
+    singles = [(D, op, args) for (D, qs) in longs + scales for (op, args) in qs]
 
     # ---- implementation
     tab_in = "".join(q_line(d, "tab", (K,)) + "\n" for d, K in tabs)
@@ -397,13 +684,18 @@ def run(chk):
         mh = vlib.coq_eval(REQ, "case", "run_case Trap", hterms, shard=max(120, len(hterms) // 16 + 1), tag="c19h")
         # single queries: every long document is defined once per shard, both modes in one evaluation
         names, defs = {}, []
-        for D, _ in longs:
+        for D, _ in longs + scales:
             names[id(D)] = "doc_%d" % len(names)
+            if len(D.doc) > MODEL_MAX:
+                continue
             defs.append("Definition %s : text := %s." % (names[id(D)], doc_coq(D.doc)))
-        sterms = [q_coq(names[id(D)], op, args) for D, op, args in singles]
+        # documents above MODEL_MAX scalars are judged by the oracle only (coqc's evaluator runs out of stack on
+        # the non-tail-recursive text functions; the theorems cover every size)
+        in_model = [j for j, (D, op, args) in enumerate(singles) if len(D.doc) <= MODEL_MAX]
+        sterms = [q_coq(names[id(singles[j][0])], singles[j][1], singles[j][2]) for j in in_model]
         both = vlib.coq_eval(REQ, "case", "fun c => (run_case Trap c, run_case Wrap c)", sterms,
                              shard=max(400, len(sterms) // 8 + 1), tag="c19s", extra_defs="\n".join(defs))
-        ms = {"Trap": [list(b[0]) for b in both], "Wrap": [list(b[1]) for b in both]}
+        ms = {"Trap": {j: list(b[0]) for j, b in zip(in_model, both)}, "Wrap": {j: list(b[1]) for j, b in zip(in_model, both)}}
     else:
         res["tie_ok"] = False
         res["broken"].append({"what": "model", "message": "C19/Model.v no longer builds"})
@@ -411,6 +703,7 @@ def run(chk):
     lap("model runs (coqc)")
     # ---- judge tables
     orc = {"Trap": Oracle(chk, "debug"), "Wrap": Oracle(chk, "release")}
+    arms = Arms()
     dist = {"docs_by_scalars": {}, "single_ops": {}, "table_entries": 0}
     bad_tabs = []
     for i, (d, K) in enumerate(tabs):
@@ -427,7 +720,7 @@ def run(chk):
         dist["table_entries"] += entries
         chk.count_case(("tab", doc_str(d)), nontrivial=len(d) > 0)
         chk.evaluations += entries - 1
-        judge_table(orc["Trap"], D, K, t)
+        judge_table(orc["Trap"], D, K, t, arms)
         if model_ok:
             validated += entries
             if mh[i] != [hash_list(xs)]:
@@ -446,7 +739,6 @@ def run(chk):
     # ---- judge single queries (both builds)
     for mode in ("Trap", "Wrap"):
         o = orc[mode]
-        by_doc = {}
         for j, (D, op, args) in enumerate(singles):
             xs, note = parse_ints(impl_sin[mode][j])
             line = q_line(D.doc, op, args)
@@ -455,23 +747,35 @@ def run(chk):
             if xs is None:
                 o.fail(D, line, "diagnostic range differs from span_to_range: " + note)
                 continue
-            if model_ok:
+            if model_ok and j in ms[mode]:
                 validated += 1
                 if ms[mode][j] != xs:
                     corr_bad.append({"case": line, "build": o.build, "model": ms[mode][j][:40], "impl": xs[:40], "note": note})
+            count_arms = mode == "Trap" and len(D.doc) <= 2000
             if op == "o2p":
                 o.o2p(D, args[0], xs)
-                by_doc.setdefault(id(D), (D, {}, {}))[1][args[0]] = tuple(xs)
+                if count_arms:
+                    arms.o2p(D, args[0])
             elif op == "p2o":
                 o.p2o(D, args[0], args[1], xs[0])
+                if count_arms:
+                    arms.p2o(D, args[0], args[1])
             elif op == "rng":
                 o.rng(D, args[0], args[1], xs)
+                if count_arms:
+                    arms.rng(D, args[0], args[1])
             elif op == "car":
                 o.car(D, args[0], args[1], None if xs[0] == TRAP else (xs[0], xs[1], xs[2], xs[3], xs[4:]))
+                if count_arms and xs[0] != TRAP:
+                    arms.car(D, args[0], args[1], xs[1], sum(blen(c) for c in xs[4:]))
     # round trip on the long documents: ask the implementation for p2o(o2p(o)) on every boundary
     rt_in, rt_meta = [], []
-    for D, _ in longs:
-        for o in D.bounds:
+    for D, _ in longs + scales:
+        bs = D.bounds
+        if len(bs) > 600:  # scale documents: the boundaries around the ends and around 2^8 and 2^16
+            keep = sorted({i for k in (0, 255, 256, 65535, 65536, len(bs) // 2, len(bs) - 2) for i in (k - 1, k, k + 1) if 0 <= i < len(bs)})
+            bs = [bs[i] for i in keep]
+        for o in bs:
             rt_in.append(q_line(D.doc, "o2p", (o,)))
             rt_meta.append((D, o))
     out1 = vlib.run_harness(dbg, ["run", "c19"], "\n".join(rt_in) + "\n").split("\n")[:len(rt_in)]
@@ -490,6 +794,9 @@ def run(chk):
         orc["Trap"].roundtrip_monotone(D, o2p_at, lambda p, back=back: back.get(p))
 
     lap("singles + round trips judged")
+    # ---- through the language server (hover / definition / published diagnostics)
+    lsp_stream(chk, dbg, orc["Trap"], rng, thorough, dist)
+    lap("language-server stream")
     # ---- known findings: replay the witnesses
     for f in chk.findings:
         if f.get("status") != "known":
@@ -509,6 +816,11 @@ def run(chk):
         "debug and release builds; round trip on every boundary of every long document. An evaluation is one query answered by "
         "the implementation; distinct counts documents (tables) and query lines (single queries)" % (nmax, "" if thorough else " + a seeded sample of 4- and 5-scalar documents"))
     chk.coverage["distribution"] = dist
+    chk.coverage["model_arm_hits"] = dict(arms.h)
+    chk.coverage["model_arms_unreachable_by_theorem"] = Arms.UNREACHABLE
+    zero = [k for k, v in arms.h.items() if v == 0]
+    if zero:
+        raise vlib.Infra("generator bug: model arms never reached: %s" % zero)
     chk.coverage["traces_validated_against_impl"] = validated
     chk.coverage["correspondence_mismatches"] = len(corr_bad) + max(0, len(bad_tabs) - 40)
     chk.coverage["suppressed_by_known_finding"] = {k: orc["Trap"].suppressed.get(k, 0) + orc["Wrap"].suppressed.get(k, 0)
@@ -534,6 +846,11 @@ def replay(path):
     for v in data["violations"]:
         d = v["detail"]
         qs = [q for q in (d.get("query"), d.get("then")) if q and q.split(" ")[0] in ("o2p", "p2o", "rng", "car", "tab")]
+        if (d.get("query") or "").startswith("lsp "):
+            print("impl (language server, debug):", vlib.run_harness(dbg, ["run", "c19"], d["query"] + "\n").strip()[:3000])
+            print("oracle  expected:", d.get("expected"), "| actual:", d.get("actual"), "|", d.get("why"))
+            print()
+            continue
         if not qs:
             print(json.dumps(d, indent=1)[:3000])
             continue
@@ -541,7 +858,7 @@ def replay(path):
             for name, b in (("debug  ", dbg), ("release", rel)):
                 print(name, "impl  ", q[:200], "->", vlib.run_harness(b, ["run", "c19"], q + "\n").strip()[:400])
             p = q.split()
-            doc = [] if p[1] == "-" else [int(x) for x in p[1].split(",")]
+            doc = parse_doc_str(p[1])
             args = [int(x) for x in p[2:]]
             for m in ("Trap", "Wrap"):
                 try:
